@@ -449,6 +449,11 @@ func Run(t *testing.T, scn Scenario, sched Scheduler, workDir string, uidBase *i
 								c.LogP(proc, "ReaderObs", "r", proc, "obs", ctl.ErrObs("restore: "+err.Error()), "reps", 0, "final", true, "backup", true)
 							} else {
 								ob := ctl.Observe(rd, scn.Ids, true)
+								c.LogP(proc, "ReaderObs", "r", proc, "obs", ob, "reps", 0, "final", true, "backup", true)
+								// a second backup into the same directory while the restored copy is open: it may be refused
+								// (its files are in use) but must leave the open reader as it is
+								_ = r.Backup(dst, nil)
+								ob = ctl.Observe(rd, scn.Ids, true)
 								_ = rd.Close()
 								c.LogP(proc, "ReaderObs", "r", proc, "obs", ob, "reps", 0, "final", true, "backup", true)
 							}
